@@ -334,6 +334,7 @@ struct GenChooser {
     midpoll_intr: bool,
     steps: usize,
     burst: bool, // complete / drop everything that is in flight at once
+    abort_at: Option<usize>, // history mode: abandon the run at this step
 }
 
 impl GenChooser {
@@ -345,6 +346,16 @@ impl GenChooser {
         }
         let mut batch = vec![];
         let mut any_live = false;
+        if self.abort_at == Some(step) {
+            for (i, r) in v.runs.iter().enumerate() {
+                if !r.finished {
+                    batch.push(if r.cfg.is_stream() { Act::DropStream { run: i } } else { Act::Abort { run: i } });
+                }
+            }
+            if !batch.is_empty() {
+                return Some(batch);
+            }
+        }
         for (i, r) in v.runs.iter().enumerate() {
             if r.finished {
                 continue;
@@ -533,7 +544,8 @@ fn run_case(
             }
             None => {
                 let burst = rng.chance(22);
-                let mut ch = GenChooser { rng: Rng(rng.next() | 1), useless: 0, allow_abort, midpoll_intr: midpoll, steps: 0, burst };
+                let abort_at = if allow_abort && rng.chance(35) { Some(1 + rng.below(4) as usize) } else { None };
+                let mut ch = GenChooser { rng: Rng(rng.next() | 1), useless: 0, allow_abort, midpoll_intr: midpoll, steps: 0, burst, abort_at };
                 session(&mut g, &s.cfgs, out, &mut |v, step| ch.choose(v, step));
             }
         }
@@ -653,7 +665,7 @@ fn kpops_main(sizes: &str) {
     let mut lock = stdout.lock();
     for (i, s) in sizes.split(',').enumerate() {
         let n: usize = s.parse().unwrap();
-        for variant in 0..2 {
+        for variant in 0..3 {
             let mut ops = vec![];
             for _ in 0..n {
                 ops.push(Op::Fn { tag: 0, r: vec![], w: vec![] });
@@ -664,7 +676,7 @@ fn kpops_main(sizes: &str) {
                         ops.push(Op::Edge { k: K::Logic, a, b });
                     }
                 }
-            } else {
+            } else if variant == 1 {
                 let width = 3;
                 for a in 0..n {
                     for b in 0..n {
@@ -673,9 +685,24 @@ fn kpops_main(sizes: &str) {
                         }
                     }
                 }
+            } else {
+                // dense part next to an unconnected chain of the same depth (writers of one type, so
+                // the augmenter has to answer many "no path" queries across the two parts)
+                for i in 0..n {
+                    ops[i] = Op::Fn { tag: 0, r: vec![], w: if i % 7 == 0 { vec![0] } else { vec![] } };
+                }
+                let h = n / 2;
+                for a in 0..h {
+                    for b in a + 1..h {
+                        ops.push(Op::Edge { k: K::Logic, a, b });
+                    }
+                }
+                for a in h..n.saturating_sub(1) {
+                    ops.push(Op::Edge { k: K::Logic, a, b: a + 1 });
+                }
             }
             let mut out = vec![];
-            out.push(format!("case k{}_{} feat={} shape={}", i, variant, FEAT, if variant == 0 { "kcomplete" } else { "klayered" }));
+            out.push(format!("case k{}_{} feat={} shape={}", i, variant, FEAT, ["kcomplete", "klayered", "kdense+chain"][variant]));
             for op in &ops {
                 out.push(op.line());
             }
@@ -684,10 +711,14 @@ fn kpops_main(sizes: &str) {
             out.extend(res);
             let (_g, built) = build(b);
             out.push(built);
-            out.push(format!("timing build_ms={}", t0.elapsed().as_millis()));
+            let ms = t0.elapsed().as_millis();
+            out.push(format!("timing build_ms={}", ms));
             out.push("end".into());
             for l in out {
                 let _ = writeln!(lock, "{}", l);
+            }
+            if ms > 5000 {
+                return; // the series has left polynomial territory; the check reports it
             }
         }
     }
